@@ -21,6 +21,11 @@ func castErr(path string, message string, span errors.Span) *Interrupt {
 }
 
 func deepCastAt(val Value, typ ast.Type, span errors.Span, allowCasts bool, path string) (*Value, *Interrupt) {
+	// This does nothing as casting to an `any` does not validate anything.
+	if typ.Kind() == ast.AnyTypeKind {
+		return &val, nil
+	}
+
 	// TODO: is this OK?
 	if typ.Kind() == ast.OptionTypeKind {
 		if val.Kind() == OptionValueKind {
